@@ -348,7 +348,7 @@ struct C11 : Property
 			if (n.o)
 				LIBV(json_object_put(n.o));
 		if (!g_alloc.live.empty())
-			ctx.fail("C11:leak@" + g_alloc.site_of(g_alloc.live.begin()->second), "%zu allocation(s) remain after every node was released:%s", g_alloc.live.size(),
+			ctx.fail("C11:leak@" + g_alloc.first_live_site(), "%zu allocation(s) remain after every node was released:%s", g_alloc.live.size(),
 			         g_alloc.describe_live().c_str());
 	}
 };
